@@ -539,6 +539,19 @@ func (g *gen) op() op {
 		kinds = append(kinds, "RN", "CN", "CR", "RA", "RR", "HR", "XE", "HU")
 	}
 	k := r.PickS(kinds)
+	// mostly-valid stream: operations on clusters / routers that do not exist yet are mostly turned into creations
+	if !g.bad && r.Chance(75) {
+		switch k {
+		case "HU", "HA", "HR", "XE", "CR":
+			if len(g.clus) == 0 {
+				k = r.PickS([]string{"CP", "CH", "CH"})
+			}
+		case "RA", "RR":
+			if len(g.routers) == 0 {
+				k = "RU"
+			}
+		}
+	}
 	switch k {
 	case "RN":
 		return op{kind: k}
@@ -670,7 +683,7 @@ func Run(c *hx.Ctx) {
 		c.Count("stream=corpus")
 	}
 	g := &gen{c: c}
-	n := c.N(1200, 12000)
+	n := c.N(5000, 40000)
 	for i := 0; i < n; i++ {
 		g.bad = i%6 == 5
 		l := 1 + c.Rng.Intn(15)
